@@ -5,7 +5,7 @@
    cross-protocol equivalence) holds for its wire bytes after any history. *)
 From Coq Require Import Lia ZifyBool.
 From Vx Require Import base.Prelude base.ListX model.ParserTypes gen.GenParser model.Parser model.Vt500Spec
-  proofs.ParserTable proofs.ParserConform proofs.ParserSem gen.GenKeys model.Keys model.KeysStream.
+  proofs.ParserTable proofs.ParserConform proofs.ParserSem gen.GenKeys model.Keys model.KeysStream proofs.KeysProofs.
 Local Open Scope Z_scope.
 
 Definition clean (p : pst) : Prop :=
@@ -178,4 +178,404 @@ Proof.
   eexists. split.
   { cbn. unfold esc_post. rewrite Ep. unfold po; cbn. rewrite Dp. unfold po; cbn. rewrite Hod. reflexivity. }
   repeat split.
+Qed.
+
+(* ---------- one report from any clean state ---------- *)
+Lemma forallb_Forall_rng l a b : forallb (fun r => in_range r a b) l = true -> Forall (fun r => a <= r <= b) l.
+Proof.
+  intros H. apply Forall_forall. intros x Hx. rewrite forallb_forall in H. specialize (H x Hx).
+  unfold in_range in H. lia.
+Qed.
+Lemma forallb_Forall_ge l a : forallb (fun r => a <=? r) l = true -> Forall (fun r => a <= r) l.
+Proof.
+  intros H. apply Forall_forall. intros x Hx. rewrite forallb_forall in H. specialize (H x Hx). lia.
+Qed.
+
+Theorem report_from_clean p r : clean p -> report_ok r = true ->
+  exists p', feed p (report_wire r) = (p', report_items r, true) /\ clean p'.
+Proof.
+  intros Hcl Hok. destruct r as [r|b|c|c|priv ps is f|pl|pl]; cbn [report_ok report_wire report_items] in *.
+  - destruct (step_print_clean p r Hcl ltac:(lia)) as [p' [Hs Hc]].
+    exists p'. cbn [feed]. rewrite Hs. split; [reflexivity|exact Hc].
+  - unfold in_range in Hok.
+    destruct (step_c0_clean p b Hcl ltac:(lia) ltac:(lia)) as [p' [Hs Hc]].
+    exists p'. cbn [feed]. rewrite Hs. split; [reflexivity|exact Hc].
+  - destruct (esc_post_clean p Hcl) as [Ho [Hs [Hi [_ [Hig [Hex Hod]]]]]].
+    cbn [feed]. rewrite step_esc, Ho.
+    destruct (step_esc_final _ c Hs Hig Hok) as [q' [Hq [Hst [Hg [He1 He2]]]]].
+    rewrite Hq, Hi. exists q'. split; [reflexivity|].
+    repeat split; [exact Hst|exact Hg|rewrite He1; exact Hex|rewrite He2; exact Hod].
+  - destruct (esc_post_clean p Hcl) as [Ho [Hs [_ [_ [Hig [Hex Hod]]]]]].
+    cbn [feed]. rewrite step_esc, Ho.
+    destruct (step_esc_O _ Hs) as [q1 [Hq1 [Hst1 [Hg1 [E11 E12]]]]]. rewrite Hq1.
+    destruct (step_ss3_final q1 c Hst1 ltac:(lia) ltac:(lia)) as [q2 [Hq2 [Hst2 [Hg2 [E21 E22]]]]]. rewrite Hq2.
+    exists q2. split; [reflexivity|].
+    repeat split; [exact Hst2|rewrite Hg2; exact Hg1|rewrite E21, E11; exact Hex|rewrite E22, E12; exact Hod].
+  - apply andb_prop in Hok as [Hok Hf]. apply andb_prop in Hok as [Hok His]. apply andb_prop in Hok as [Hpriv Hps].
+    apply csi_clean; [exact Hcl| | apply forallb_Forall_rng; exact Hps | apply forallb_Forall_rng; exact His
+                      | unfold in_range in Hf; lia].
+    destruct priv as [|m [|m2 t]]; [now left| |discriminate].
+    right. exists m. split; [reflexivity|]. unfold in_range in Hpriv. lia.
+  - apply osc_bel_clean; [exact Hcl|apply forallb_Forall_ge; exact Hok].
+  - apply andb_prop in Hok as [Hpl Hne].
+    apply osc_st_clean; [exact Hcl|apply forallb_Forall_ge; exact Hpl|].
+    destruct pl; [discriminate|discriminate].
+Qed.
+
+(* ---------- a history of reports ---------- *)
+Theorem reports_from_clean rs : forall p, clean p -> Forall (fun r => report_ok r = true) rs ->
+  exists p', feed p (flat_map report_wire rs) = (p', flat_map report_items rs, true) /\ clean p'.
+Proof.
+  induction rs as [|r rs IH]; intros p Hcl Hok.
+  - exists p. split; [reflexivity|exact Hcl].
+  - inversion Hok as [|? ? H1 H2]; subst. cbn [flat_map].
+    destruct (report_from_clean p r Hcl H1) as [p1 [F1 C1]].
+    destruct (IH p1 C1 H2) as [p2 [F2 C2]].
+    exists p2. rewrite feed_app, F1, F2. split; [reflexivity|exact C2].
+Qed.
+
+Lemma events_of_app u a b : events_of u (a ++ b) = events_of u a ++ events_of u b.
+Proof. unfold events_of. apply flat_map_app. Qed.
+
+Lemma events_of_flat_map {A} u (f : A -> list item) l :
+  events_of u (flat_map f l) = flat_map (fun x => events_of u (f x)) l.
+Proof.
+  induction l as [|x l IH]; [reflexivity|]. cbn [flat_map]. rewrite events_of_app, IH. reflexivity.
+Qed.
+
+Lemma flat_map_ext_In {A B} (f g : A -> list B) l :
+  (forall x, In x l -> f x = g x) -> flat_map f l = flat_map g l.
+Proof.
+  induction l as [|x l IH]; intros H; [reflexivity|]. cbn [flat_map].
+  rewrite (H x (or_introl eq_refl)), IH; [reflexivity|]. intros y Hy. apply H. now right.
+Qed.
+
+Lemma run_events_report u p r : clean p -> report_ok r = true ->
+  run_events u p (report_wire r) = events_of u (report_items r).
+Proof.
+  intros Hcl Hok. destruct (report_from_clean p r Hcl Hok) as [p' [F _]].
+  unfold run_events, run_items. rewrite F. reflexivity.
+Qed.
+
+(* the decoded stream of a history = the concatenation of what each report decodes to when it is the
+   only thing a fresh parser ever sees *)
+Theorem stream_history_independent u p rs : clean p -> Forall (fun r => report_ok r = true) rs ->
+  run_events u p (flat_map report_wire rs) = flat_map (fun r => run_events u pinit (report_wire r)) rs.
+Proof.
+  intros Hcl Hok. destruct (reports_from_clean rs p Hcl Hok) as [p' [F _]].
+  unfold run_events at 1, run_items. rewrite F. rewrite events_of_flat_map.
+  apply flat_map_ext_In. intros r Hr. rewrite Forall_forall in Hok.
+  symmetry. apply run_events_report; [exact clean_pinit|apply Hok; exact Hr].
+Qed.
+
+(* a report after any history, from any clean state *)
+Theorem report_after_history u p hist r : clean p ->
+  Forall (fun r => report_ok r = true) hist -> report_ok r = true ->
+  run_events u p (flat_map report_wire hist ++ report_wire r) =
+  run_events u p (flat_map report_wire hist) ++ run_events u pinit (report_wire r).
+Proof.
+  intros Hcl Hh Hr.
+  destruct (reports_from_clean hist p Hcl Hh) as [p1 [F1 C1]].
+  destruct (report_from_clean p1 r C1 Hr) as [p2 [F2 _]].
+  unfold run_events at 1 2, run_items. rewrite feed_app, F1, F2, events_of_app.
+  rewrite (run_events_report u pinit r clean_pinit Hr). reflexivity.
+Qed.
+
+(* ---------- decimal parameters: the parser's decoder reads the rendering back ---------- *)
+Ltac Zify.zify_post_hook ::= Z.div_mod_to_equations.
+
+Definition sm63 (n : Z) : Prop := 0 <= n < 9223372036854775808.
+
+Lemma i64_sm63 x : sm63 x -> i64 x = x.
+Proof. unfold sm63, i64. intros H. cbv zeta. destruct (_ <? _) eqn:E; lia. Qed.
+
+Lemma kdigits_S f n : kdigits (S f) n = if n <? 10 then [48 + n] else kdigits f (n / 10) ++ [48 + n mod 10].
+Proof. reflexivity. Qed.
+
+Lemma kdigits_digits f : forall n, 0 <= n -> Forall (fun r => 48 <= r <= 57) (kdigits f n).
+Proof.
+  induction f as [|f IH]; intros n Hn; [constructor|].
+  rewrite kdigits_S. destruct (n <? 10) eqn:E.
+  - constructor; [lia|constructor].
+  - apply Forall_app. split; [apply IH; lia|]. constructor; [lia|constructor].
+Qed.
+
+Lemma kdigits_nonempty f n : kdigits (S f) n <> [].
+Proof.
+  rewrite kdigits_S. destruct (n <? 10); [discriminate|].
+  intros H. apply app_eq_nil in H. destruct H as [_ H]. discriminate.
+Qed.
+
+Lemma kdd_digits n : 0 <= n -> Forall (fun r => 48 <= r <= 57) (kdd n).
+Proof. apply kdigits_digits. Qed.
+Lemma kdd_nonempty n : kdd n <> [].
+Proof. apply kdigits_nonempty. Qed.
+
+Lemma csi_params_digit d t ps cur acc : 48 <= d <= 57 ->
+  csi_params (d :: t) ps cur acc = csi_params t (i64 (i64 (ps * 10) + (d - 48))) cur acc.
+Proof.
+  intros H. cbn [csi_params]. destruct (d =? 59) eqn:E1; [lia|]. destruct (d =? 58) eqn:E2; [lia|]. reflexivity.
+Qed.
+
+Lemma csi_params_dec f : forall n rest cur acc,
+  sm63 n -> n < 10 ^ Z.of_nat f ->
+  csi_params (kdigits f n ++ rest) 0 cur acc = csi_params rest n cur acc.
+Proof.
+  induction f as [|f IH]; intros n rest cur acc Hs Hf.
+  - cbn in Hf. unfold sm63 in Hs. assert (n = 0) by lia. subst. reflexivity.
+  - rewrite kdigits_S. destruct (n <? 10) eqn:E.
+    + cbn [app]. rewrite csi_params_digit by (unfold sm63 in Hs; lia).
+      f_equal. unfold sm63 in Hs. rewrite (i64_sm63 (0 * 10)) by (unfold sm63; lia).
+      rewrite i64_sm63 by (unfold sm63; lia). lia.
+    + rewrite <- app_assoc. cbn [app].
+      assert (Hp : 10 ^ Z.of_nat (S f) = 10 * 10 ^ Z.of_nat f).
+      { rewrite Nat2Z.inj_succ, Z.pow_succ_r by lia. reflexivity. }
+      unfold sm63 in Hs.
+      rewrite IH by (unfold sm63; lia).
+      rewrite csi_params_digit by lia. f_equal.
+      rewrite (i64_sm63 (n / 10 * 10)) by (unfold sm63; lia).
+      rewrite i64_sm63 by (unfold sm63; lia). lia.
+Qed.
+
+Lemma csi_params_kdd n rest cur acc : sm63 n ->
+  csi_params (kdd n ++ rest) 0 cur acc = csi_params rest n cur acc.
+Proof.
+  intros H. apply csi_params_dec; [exact H|]. unfold sm63 in H.
+  change (Z.of_nat 20) with 20. lia.
+Qed.
+
+Lemma sub_str_chars p : Forall sm63 p -> Forall (fun r => 48 <= r <= 59) (sub_str p).
+Proof.
+  induction p as [|n t IH]; intros H; [constructor|].
+  inversion H as [|? ? Hn Ht]; subst.
+  assert (Hd : Forall (fun r => 48 <= r <= 59) (kdd n)).
+  { eapply Forall_impl; [|apply kdd_digits; unfold sm63 in Hn; lia]. cbn. intros; lia. }
+  destruct t as [|m t']; [exact Hd|].
+  change (sub_str (n :: m :: t')) with (kdd n ++ 58 :: sub_str (m :: t')).
+  apply Forall_app. split; [exact Hd|]. constructor; [lia|]. apply IH. exact Ht.
+Qed.
+
+Lemma pstr_chars ps : Forall (Forall sm63) ps -> Forall (fun r => 48 <= r <= 59) (pstr ps).
+Proof.
+  induction ps as [|p t IH]; intros H; [constructor|].
+  inversion H as [|? ? Hp Ht]; subst.
+  destruct t as [|q t']; [apply sub_str_chars; exact Hp|].
+  change (pstr (p :: q :: t')) with (sub_str p ++ 59 :: pstr (q :: t')).
+  apply Forall_app. split; [apply sub_str_chars; exact Hp|]. constructor; [lia|]. apply IH. exact Ht.
+Qed.
+
+Lemma csi_params_sub p : forall rest cur acc, p <> [] -> Forall sm63 p ->
+  csi_params (sub_str p ++ rest) 0 cur acc = csi_params rest (last p 0) (cur ++ removelast p) acc.
+Proof.
+  induction p as [|n t IH]; intros rest cur acc Hne H; [congruence|].
+  inversion H as [|? ? Hn Ht]; subst.
+  destruct t as [|m t'].
+  - cbn [sub_str last removelast]. rewrite app_nil_r. apply csi_params_kdd. exact Hn.
+  - change (sub_str (n :: m :: t')) with (kdd n ++ 58 :: sub_str (m :: t')).
+    rewrite <- app_assoc. rewrite csi_params_kdd by exact Hn.
+    cbn [app csi_params]. change (58 =? 59) with false. change (58 =? 58) with true. cbv iota.
+    rewrite IH by (try discriminate; exact Ht).
+    change (last (n :: m :: t') 0) with (last (m :: t') 0).
+    change (removelast (n :: m :: t')) with (n :: removelast (m :: t')).
+    rewrite <- app_assoc. reflexivity.
+Qed.
+
+Lemma csi_params_pstr ps : forall acc, ps <> [] -> Forall (fun p => p <> []) ps -> Forall (Forall sm63) ps ->
+  csi_params (pstr ps) 0 [] acc = acc ++ ps.
+Proof.
+  induction ps as [|p t IH]; intros acc Hne Hn Hs; [congruence|].
+  inversion Hn as [|? ? Hp Hnt]; subst. inversion Hs as [|? ? Hsp Hst]; subst.
+  destruct t as [|q t'].
+  - cbn [pstr]. rewrite <- (app_nil_r (sub_str p)). rewrite csi_params_sub by assumption.
+    cbn [csi_params app]. rewrite <- app_removelast_last by exact Hp. reflexivity.
+  - change (pstr (p :: q :: t')) with (sub_str p ++ 59 :: pstr (q :: t')).
+    rewrite csi_params_sub by assumption.
+    cbn [csi_params app]. change (59 =? 59) with true. cbv iota.
+    rewrite <- app_removelast_last by exact Hp.
+    rewrite IH by (try discriminate; assumption). rewrite <- app_assoc. reflexivity.
+Qed.
+
+Lemma pstr_nonempty ps : ps <> [] -> Forall (fun p => p <> []) ps -> pstr ps <> [].
+Proof.
+  intros Hne Hn. destruct ps as [|p t]; [congruence|]. inversion Hn as [|? ? Hp _]; subst.
+  assert (Hs : sub_str p <> []).
+  { destruct p as [|n u]; [congruence|]. destruct u; cbn [sub_str]; [apply kdd_nonempty|].
+    intros H. apply app_eq_nil in H. destruct H as [H _]. revert H. apply kdd_nonempty. }
+  destruct t; cbn [pstr]; [exact Hs|]. intros H. apply app_eq_nil in H. destruct H as [H _]. auto.
+Qed.
+
+Lemma wire_params_ok_spec ps : wire_params_ok ps = true ->
+  Forall (fun p => p <> []) ps /\ Forall (Forall sm63) ps.
+Proof.
+  unfold wire_params_ok. intros H. rewrite forallb_forall in H.
+  split; apply Forall_forall; intros p Hp; specialize (H p Hp); destruct p as [|n t]; try discriminate.
+  apply Forall_forall. intros x Hx. rewrite forallb_forall in H. specialize (H x Hx).
+  unfold small63 in H. unfold sm63. lia.
+Qed.
+
+Theorem csi_dec_pstr ps : wire_params_ok ps = true -> csi_dec (pstr ps) = ps.
+Proof.
+  intros H. destruct (wire_params_ok_spec ps H) as [Hn Hs].
+  destruct ps as [|p t]; [reflexivity|].
+  unfold csi_dec.
+  destruct (pstr (p :: t)) eqn:E; [exfalso; revert E; apply pstr_nonempty; [discriminate|assumption]|].
+  rewrite <- E. apply (csi_params_pstr (p :: t) []); [discriminate|assumption|assumption].
+Qed.
+
+(* ---------- the wire form of a sequence: delivered as that sequence, after any history ---------- *)
+Lemma kseq_report_items u s r : kseq_report s = Some r -> report_ok r = true ->
+  events_of u (report_items r) = [(s, decode_key u s)].
+Proof.
+  intros Hr Hok. destruct s as [g|b|i c|c|i ps f|]; cbn [kseq_report] in Hr; try discriminate.
+  - destruct g as [|x [|y t]]; try discriminate. injection Hr as <-. reflexivity.
+  - injection Hr as <-. reflexivity.
+  - destruct i; [|discriminate]. injection Hr as <-. reflexivity.
+  - injection Hr as <-. reflexivity.
+  - destruct i; [|discriminate]. destruct (wire_params_ok ps) eqn:Ew; [|discriminate]. injection Hr as <-.
+    cbn [report_items app]. rewrite (csi_dec_pstr ps Ew). reflexivity.
+Qed.
+
+Lemma kseq_wire_report s w : kseq_wire s = Some w ->
+  exists r, kseq_report s = Some r /\ report_ok r = true /\ w = report_wire r.
+Proof.
+  unfold kseq_wire. destruct (kseq_report s) as [r|]; [|discriminate].
+  destruct (report_ok r) eqn:E; [|discriminate]. intros H. injection H as <-. exists r. auto.
+Qed.
+
+Theorem key_after_history u p hist s w : clean p ->
+  Forall (fun r => report_ok r = true) hist -> kseq_wire s = Some w ->
+  run_events u p (flat_map report_wire hist ++ w) =
+  run_events u p (flat_map report_wire hist) ++ [(s, decode_key u s)].
+Proof.
+  intros Hcl Hh Hw. destruct (kseq_wire_report s w Hw) as [r [Hr [Hok ->]]].
+  rewrite (report_after_history u p hist r Hcl Hh Hok).
+  rewrite (run_events_report u pinit r clean_pinit Hok), (kseq_report_items u s r Hr Hok). reflexivity.
+Qed.
+
+(* ---------- the Esc key: a lone ESC byte followed by silence ---------- *)
+Lemma lone_esc_clean p : clean p ->
+  exists p1 p2, feed p [27] = (p1, [], true) /\ timer_fire p1 = (p2, [IC0 27]) /\ clean p2.
+Proof.
+  intros Hcl. destruct (esc_post_clean p Hcl) as [Ho [Hs [_ [_ [Hig [Hex Hod]]]]]].
+  cbn [feed]. rewrite step_esc, Ho.
+  exists (fst (esc_post p)). eexists. split; [reflexivity|].
+  rewrite timer_fire_is_spec. unfold spec_timer_fire.
+  assert (Ht : timer (fst (esc_post p)) = true).
+  { unfold esc_post. destruct (exitf p) as [[]|]; reflexivity. }
+  rewrite Ht. split; [reflexivity|]. repeat split; cbn; assumption.
+Qed.
+
+(* ---------- byte level, one parser instance to the end of its input ---------- *)
+Lemma decode_fuel_ascii bs : forall f, (length bs <= f)%nat ->
+  Forall (fun b => 0 <= b < 128) bs -> decode_fuel f bs = bs.
+Proof.
+  induction bs as [|b t IH]; intros f Hf Ha.
+  - destruct f; reflexivity.
+  - destruct f; [cbn in Hf; lia|]. inversion Ha as [|? ? Hb Ht]; subst.
+    cbn [decode_fuel decode1]. destruct (b <? 128) eqn:E; [|lia].
+    rewrite IH; [reflexivity|cbn in Hf; lia|exact Ht].
+Qed.
+
+Lemma decode_all_ascii bs : Forall (fun b => 0 <= b < 128) bs -> decode_all bs = bs.
+Proof. intros H. apply decode_fuel_ascii; [lia|exact H]. Qed.
+
+Lemma finish_clean p : clean p -> finish p = [IEof].
+Proof.
+  intros [Hst [Hi [He Ho]]]. unfold finish.
+  rewrite step_is_spec_step. unfold spec_step. cbn -[run_exit]. unfold run_trans. cbn -[run_exit].
+  rewrite He. reflexivity.
+Qed.
+
+Lemma events_of_eof u l : events_of u (l ++ [IEof]) = events_of u l.
+Proof. rewrite events_of_app. cbn. apply app_nil_r. Qed.
+
+Definition ascii_report (r : report) : Prop := Forall (fun b => 0 <= b < 128) (report_wire r).
+
+Lemma stream_events_reports u rs : Forall (fun r => report_ok r = true) rs -> Forall ascii_report rs ->
+  stream_events u [flat_map report_wire rs] = events_of u (flat_map report_items rs).
+Proof.
+  intros Hok Ha. unfold stream_events, stream_items. cbn [feed_segments].
+  rewrite decode_all_ascii.
+  2:{ clear Hok. induction rs as [|r rs IH]; [constructor|]. inversion Ha; subst. cbn [flat_map].
+      apply Forall_app. split; [assumption|apply IH; assumption]. }
+  destruct (reports_from_clean rs pinit clean_pinit Hok) as [p' [F C]]. rewrite F.
+  rewrite (finish_clean p' C). apply events_of_eof.
+Qed.
+
+(* the predicate the stream check evaluates on the implementation's observations (first clause of
+   c09_stream_violations) holds of the model: one parser instance fed with all the reports delivers
+   the concatenation of what a fresh instance delivers for each report alone *)
+Theorem stream_bytes_independent u rs : Forall (fun r => report_ok r = true) rs -> Forall ascii_report rs ->
+  stream_events u [flat_map report_wire rs] = flat_map (fun r => stream_events u [report_wire r]) rs.
+Proof.
+  intros Hok Ha. rewrite (stream_events_reports u rs Hok Ha), events_of_flat_map.
+  apply flat_map_ext_In. intros r Hr. rewrite Forall_forall in Hok, Ha.
+  pose proof (stream_events_reports u [r]) as H1. cbn [flat_map] in H1. rewrite !app_nil_r in H1.
+  symmetry. apply H1; constructor; auto.
+Qed.
+
+(* ---------- chords ---------- *)
+Lemma chords_have_wire_true : chords_have_wire = true.
+Proof. vm_compute. reflexivity. Qed.
+
+(* cross-protocol equivalence in context: whatever reports went through the parser before, the
+   legacy bytes and the kitty bytes of a both-expressible chord each add exactly one event, and the
+   two keys have the same String() and match the same bindings *)
+Theorem cross_after_history u : upper_hyp u -> ascii_like u ->
+  forall (hist : list report) (c : chord) (sl sk : kseq) (wl wk : list Z),
+  Forall (fun r => report_ok r = true) hist ->
+  In c both_expressible -> In sl (legacy_encs c) -> In sk (kitty_encs c) ->
+  guard_esc_upper c = false -> guard_shift_noalt c sk = false ->
+  kseq_wire sl = Some wl -> kseq_wire sk = Some wk ->
+  let h := flat_map report_wire hist in
+  exists kl kk,
+    run_events u pinit (h ++ wl) = run_events u pinit h ++ [(sl, kl)] /\
+    run_events u pinit (h ++ wk) = run_events u pinit h ++ [(sk, kk)] /\
+    key_string u kl = key_string u kk /\
+    forall r mods, r <> 0 -> matches u kl r mods = matches u kk r mods.
+Proof.
+  intros H1 H2 hist c sl sk wl wk Hh Hc Hl Hk G1 G2 Wl Wk h.
+  exists (decode_key u sl), (decode_key u sk).
+  split; [apply key_after_history; [exact clean_pinit|exact Hh|exact Wl]|].
+  split; [apply key_after_history; [exact clean_pinit|exact Hh|exact Wk]|].
+  apply (cross_protocol u H1 H2 c sl sk Hc Hl Hk). unfold cross_guard. now rewrite G1, G2.
+Qed.
+
+(* ---------- statements over the decidable [clean_b] (props/C09.v) ---------- *)
+Lemma report_from_clean_b p r : clean_b p = true -> report_ok r = true ->
+  exists p', feed p (report_wire r) = (p', report_items r, true) /\ clean_b p' = true.
+Proof.
+  intros Hc Hr. destruct (report_from_clean p r (proj1 (clean_b_spec p) Hc) Hr) as [p' [F C]].
+  exists p'. split; [exact F|apply clean_b_spec; exact C].
+Qed.
+
+Lemma stream_history_independent_b u p rs : clean_b p = true -> Forall (fun r => report_ok r = true) rs ->
+  run_events u p (flat_map report_wire rs) = flat_map (fun r => run_events u pinit (report_wire r)) rs.
+Proof. intros Hc. apply stream_history_independent. apply clean_b_spec; exact Hc. Qed.
+
+Lemma key_after_history_b u p hist s w : clean_b p = true ->
+  Forall (fun r => report_ok r = true) hist -> kseq_wire s = Some w ->
+  run_events u p (flat_map report_wire hist ++ w) =
+  run_events u p (flat_map report_wire hist) ++ [(s, decode_key u s)].
+Proof. intros Hc. apply key_after_history. apply clean_b_spec; exact Hc. Qed.
+
+Lemma lone_esc_clean_b p : clean_b p = true ->
+  exists p1 p2, feed p [27] = (p1, [], true) /\ timer_fire p1 = (p2, [IC0 27]) /\ clean_b p2 = true.
+Proof.
+  intros Hc. destruct (lone_esc_clean p (proj1 (clean_b_spec p) Hc)) as [p1 [p2 [F [T C]]]].
+  exists p1, p2. split; [exact F|]. split; [exact T|apply clean_b_spec; exact C].
+Qed.
+
+Lemma ascii_report_b r : forallb (fun b => in_range b 0 127) (report_wire r) = true -> ascii_report r.
+Proof.
+  intros H. unfold ascii_report. apply Forall_forall. intros x Hx. rewrite forallb_forall in H.
+  specialize (H x Hx). unfold in_range in H. lia.
+Qed.
+
+Lemma stream_bytes_independent_b u rs : Forall (fun r => report_ok r = true) rs ->
+  Forall (fun r => forallb (fun b => in_range b 0 127) (report_wire r) = true) rs ->
+  stream_events u [flat_map report_wire rs] = flat_map (fun r => stream_events u [report_wire r]) rs.
+Proof.
+  intros Hok Ha. apply stream_bytes_independent; [exact Hok|].
+  eapply Forall_impl; [|exact Ha]. intros r. apply ascii_report_b.
 Qed.
